@@ -78,7 +78,39 @@ EVERY = {"jdouble": 1, "jadd": 1, "inv": 1, "fromjac": 1}
 _CNT = {"jdouble": 0, "jadd": 0, "inv": 0, "fromjac": 0}
 
 
+MUTE = [0]          # > 0 while a driver probes whether a configuration substitution took effect
+
+
+def substitution_effective(smod, ctx):
+    """W4 self-check, run with the monitors muted: do the module's public functions compute on the curve that was
+    written into its globals?  (2G, 3G = 2G + G, N*G = identity, (N+1)G = G, G + (-G) = identity, against the model.)
+    A refactored module may legitimately keep tables derived from its constants at import time; then the substitution is
+    simply not possible and W4 is reported as unavailable - it must not produce violations."""
+    E, g, n, p = ctx.E, ctx.G, ctx.N, ctx.P
+
+    def pt(t):
+        return None if (t[0] % p == 0 and t[1] % p == 0) else ((t[0] % p,), (t[1] % p,))
+    G2 = (g[0][0], g[1][0])
+    MUTE[0] += 1
+    try:
+        two = smod.multiply(G2, 2)
+        ok = pt(two) == E.add(g, g)
+        ok = ok and pt(smod.add(two, G2)) == E.add(E.add(g, g), g)
+        ok = ok and pt(smod.multiply(G2, 3)) == E.add(E.add(g, g), g)
+        ok = ok and tuple(smod.multiply(G2, n)) == (0, 0) and pt(smod.multiply(G2, n + 1)) == g
+        neg = (G2[0], (-G2[1]) % p)
+        ok = ok and tuple(smod.add(G2, neg)) == (0, 0)
+        ok = ok and pt(smod.from_jacobian(smod.jacobian_double((G2[0], G2[1], 1)))) == E.add(g, g)
+        return bool(ok)
+    except Exception:
+        return False
+    finally:
+        MUTE[0] -= 1
+
+
 def _skip(key):
+    if MUTE[0]:
+        return True
     _CNT[key] += 1
     return _CNT[key] % EVERY[key] != 0
 
@@ -148,6 +180,8 @@ def h_jadd(a, k, res, exc):
 
 
 def h_jmul(a, k, res, exc):
+    if MUTE[0]:
+        return
     rec = core.cur()
     p, n = a[0], a[1]
     case = {"fn": "jacobian_multiply", "p": tuple(p), "n": n}
@@ -184,6 +218,8 @@ def h_fromjac(a, k, res, exc):
 
 
 def h_add(a, k, res, exc):
+    if MUTE[0]:
+        return
     rec = core.cur()
     p, q = a[0], a[1]
     case = {"fn": "add", "a": tuple(p), "b": tuple(q)}
@@ -200,6 +236,8 @@ def h_add(a, k, res, exc):
 
 
 def h_multiply(a, k, res, exc):
+    if MUTE[0]:
+        return
     rec = core.cur()
     p, n = a[0], a[1]
     case = {"fn": "multiply", "a": tuple(p), "n": n}
@@ -215,6 +253,8 @@ def h_multiply(a, k, res, exc):
 
 
 def h_privtopub(a, k, res, exc):
+    if MUTE[0]:
+        return
     rec = core.cur()
     priv = a[0]
     case = {"fn": "privtopub", "priv": bytes(priv)}
@@ -228,6 +268,8 @@ def h_privtopub(a, k, res, exc):
 
 
 def h_nonce(a, k, res, exc):
+    if MUTE[0]:
+        return
     rec = core.cur()
     msghash, priv = a[0], a[1]
     case = {"fn": "deterministic_generate_k", "msghash": bytes(msghash), "priv": bytes(priv)}
